@@ -145,14 +145,20 @@ Proof.
       * destruct (n_mul m1 m2) as [r|xr] eqn:Q; [discriminate|unfold n_mul in Q; destruct m1, m2; discriminate].
       * destruct (n_div m1 m2) as [r|xr] eqn:Q; [discriminate|]. intro H; injection H as <-.
         rewrite (numop_raises QDiv _ _ _ Q). unfold qty_raisable; auto.
-  - destruct (qeval n a) as [va|xa]; [|intro H; injection H as <-; apply IHa; reflexivity].
-    destruct (qeval n b) as [vb|xb]; [|intro H; injection H as <-; apply IHb; reflexivity].
-    unfold q_cmp. destruct (negb (is_q va) && negb (is_q vb)).
-    + destruct va, vb; try (intro H; injection H as <-; unfold qty_raisable; auto; fail).
-      destruct c; discriminate.
-    + destruct (lift_q n va) as [m1 d1], (lift_q n vb) as [m2 d2].
-      destruct (negb (veqb d1 d2)); [intro H; injection H as <-; unfold qty_raisable; auto|].
-      destruct c; discriminate.
+  - assert (QC : forall c' va vb x', q_cmp n c' va vb = Raise x' -> qty_raisable x').
+    { intros c' va vb x'. unfold q_cmp. destruct (negb (is_q va) && negb (is_q vb)).
+      + destruct va, vb; try (intro H; injection H as <-; unfold qty_raisable; auto; fail).
+        destruct c'; discriminate.
+      + destruct (lift_q n va) as [m1 d1], (lift_q n vb) as [m2 d2].
+        destruct (negb (veqb d1 d2)); [intro H; injection H as <-; unfold qty_raisable; auto|].
+        destruct c'; discriminate. }
+    destruct (swapped c).
+    + destruct (qeval n b) as [vb|xb]; [|intro H; injection H as <-; apply IHb; reflexivity].
+      destruct (qeval n a) as [va|xa]; [|intro H; injection H as <-; apply IHa; reflexivity].
+      apply QC.
+    + destruct (qeval n a) as [va|xa]; [|intro H; injection H as <-; apply IHa; reflexivity].
+      destruct (qeval n b) as [vb|xb]; [|intro H; injection H as <-; apply IHb; reflexivity].
+      apply QC.
   - destruct (qeval n e) as [v|xe]; [|intro H; injection H as <-; apply IH; reflexivity].
     unfold convert_quantity, compose_units. destruct (compose_loop _ _ _ _ _) as [[[qv m] o]|xc] eqn:Cl.
     + destruct v as [y|mag d]; [intro H; injection H as <-; unfold qty_raisable; auto|].
